@@ -32,7 +32,8 @@ def stages(tier):
                    configs=[qcfg(c, n, t, 3, 0) for c in (1, 2, 3) for n in range(0, 5) for t in thirds], share=0.3))
     full_n = (0, 1, 2, 3)
     st.append(dict(label="ALL: every interleaving (no bound)", harness="h_queue", variant="sched", chunk=1,
-                   configs=[qcfg(c, n, t, 60, 1) for c in (1, 2, 3) for n in full_n for t in thirds if not (quick and n == 3 and c == 1)], share=0.6))
+                   configs=[qcfg(c, n, t, 60, 1) for c in (1, 2, 3) for n in full_n for t in thirds if n < 3] +
+                           [qcfg(c, 3, t, 60, 1, shard="%d/6" % sh) for c in ((2, 3) if quick else (1, 2, 3)) for t in thirds for sh in range(6)], share=0.7))
     st.append(dict(label="ASAN: preemption bound 2 under AddressSanitizer", harness="h_queue", variant="sched-asan", chunk=2,
                    configs=[qcfg(c, n, t, 2, 1, postrelease=1) for c in (1, 2) for n in (1, 2, 3) for t in thirds], share=0.3))
     return st
